@@ -49,7 +49,7 @@ macro "cmp_vec" : tactic => `(tactic| simp [bind, Except.bind, pure, Except.pure
   sumAxis1, countAxis1, onesBoolLike, npArray, listTake, all_zipWith_beq, QUAL_maj, QUAL_min, seventhBitmaps, QUAL_7, QUAL_maj7, QUAL_min7, QUAL_none, stackRows, countAxis0, maskSelect_tab, pairIndex_map, maskStoreB_tab, Cmp.test])
 
 /-- the row level: both sides are functions of row `i` of the two encodings -/
-macro "cmp_row" : tactic => `(tactic| (apply tab_congr; intro i _; simp [ChordCompare.cmp, ChordCompare.root, ChordCompare.thirds, ChordCompare.thirdsInv, ChordCompare.triads, ChordCompare.triadsInv, ChordCompare.tetrads, ChordCompare.tetradsInv, maskX, anyNeg, b2i, eqRoot, eqBass, ChordCompare.majmin, majminVocab, isMaj, isMin, isNone, QUAL_maj, QUAL_min, ChordCompare.sevenths, seventhsVocab, ChordCompare.majminInv, ChordCompare.seventhsInv, validInversion, seventhBitmaps, QUAL_7, QUAL_maj7, QUAL_min7, QUAL_none, eqThird, eqPrefix8, eqAll, Cmp.test, *] <;> first | grind | grind (splits := 40)))
+macro "cmp_row" : tactic => `(tactic| (apply tab_congr; intro i _; simp [ChordCompare.cmp, ChordCompare.root, ChordCompare.thirds, ChordCompare.thirdsInv, ChordCompare.triads, ChordCompare.triadsInv, ChordCompare.tetrads, ChordCompare.tetradsInv, maskX, anyNeg, b2i, eqRoot, eqBass, ChordCompare.majmin, majminVocab, isMaj, isMin, isNone, QUAL_maj, QUAL_min, ChordCompare.sevenths, seventhsVocab, ChordCompare.majminInv, ChordCompare.seventhsInv, validInversion, seventhBitmaps, QUAL_7, QUAL_maj7, QUAL_min7, QUAL_none, eqThird, eqPrefix8, eqAll, Cmp.test, *] <;> first | grind | grind (splits := 40) | (split_ifs <;> tauto)))
 
 macro "cmp_frame" f:ident : tactic => `(tactic| (
   unfold $f cmpLabels
